@@ -737,6 +737,20 @@ func (e *Engine) renderArg(fr *frame, arg iface, verb byte) []*Term {
 			}
 			return lit(fmt.Sprint(v.Val))
 		}
+		if v.W > 0 && (verb == 'd' || verb == 'v') {
+			_, signed, _ := typeWidth(arg.t)
+			x := v
+			if x.W < 64 {
+				if signed {
+					x = e.ts.SExt(x, 64)
+				} else {
+					x = e.ts.ZExt(x, 64)
+				}
+			}
+			if s, ok := e.formatInt(x, signed, e.ts.Const(64, 10)).(str); ok {
+				return s.c
+			}
+		}
 		return lit("<sym>")
 	case []value:
 		if len(v) > 0 {
